@@ -58,6 +58,11 @@ def run(c):
         plan.append(("ptrace_step:" + st, 0.0))
         if not c.quick():
             plan.append(("ptrace_step:" + st, 0.02))
+    # the same launch steps with a program that runs under other ids than the launcher
+    for st in EARLY_STEPS + STEPS[:3]:
+        plan.append(("ptrace_step_cred:" + st, 0.0))
+    plan.append(("ptrace_noseccomp_running", 0.0))
+    plan.append(("ptrace_noseccomp_running", 0.05))
     step_obs = []
     STEP_NUM = {"tracer started#1": 0, "------#1": 1, "set ptrace option#1": 2, "ptrace stopped#1": 3}
     for k, (pt, d) in enumerate(plan):
@@ -116,7 +121,7 @@ def run(c):
                     os.kill(q, signal.SIGKILL)
                 except OSError:
                     pass
-        if pt.startswith("ptrace_step:"):
+        if pt.startswith("ptrace_step"):
             step_obs.append((STEP_NUM.get(pt.split(":", 1)[1], 4), not (left or init_alive), pt, d))
         c.sample({"point": pt, "delay_ms": int(d * 1000), "processes_at_kill": len(before), "all_gone_after_s": round(took, 2)})
     # the tracer-step runs against the launch model (child || tracer || kernel rules for a dead tracer), evaluated in Coq
